@@ -6,9 +6,11 @@ import (
 	"context"
 	"encoding/json"
 	"fmt"
+	"os"
 	"regexp"
 	"runtime"
 	"runtime/debug"
+	"strconv"
 	"strings"
 	"sync"
 	"testing"
@@ -164,6 +166,8 @@ type ReqCase struct {
 	Raw string `json:"raw,omitempty"`
 	// Sig forces `signature` into commit selections (switch that avoids the signature panic).
 	Sig bool `json:"sig,omitempty"`
+	// Observe runs the request even if it is the trigger of the listed hang.
+	Observe bool `json:"observe,omitempty"`
 }
 
 type params struct {
@@ -441,7 +445,7 @@ var hostile = []string{
 	"query { Users(filter: {s: {_eq: \"\"\"block\"\"\"}}) { k } }", "query { Users { k k k k } }", "query { Users { k: s } }",
 	"query { Users(filter: {_and: " + strings.Repeat("[{_and: ", 200) + "[]" + strings.Repeat("}]", 200) + "}) { k } }",
 	"query { Users(filter: " + strings.Repeat("{_not: ", 300) + "{}" + strings.Repeat("}", 300) + ") { k } }",
-	"query { Users" + strings.Repeat(" { books { author", 150) + " { k }" + strings.Repeat(" } }", 150) + " }",
+	"query { Users" + strings.Repeat(" { books { author", 6) + " { k }" + strings.Repeat(" } }", 6) + " }",
 	"query { " + strings.Repeat("Users { k } ", 300) + "}",
 	"query { Users(filter: {i: {_in: [" + strings.Repeat("1, ", 3000) + "1]}}) { k } }",
 	"query { commits(cid: \"\") { cid } }", "query { commits(docID: \"\") { cid } }", "query { commits(depth: -1) { cid } }", "query { commits(limit: -5, offset: -5) { cid } }",
@@ -573,7 +577,7 @@ func classify(r hx.Result) string {
 	}
 }
 
-const hangAfter = 30 * time.Second
+var hangAfter = time.Duration(hx.EnvInt("VERIF_HANG_S", 30)) * time.Second
 
 var selfFrame = regexp.MustCompile(`c08\.execGuarded\.func1`)
 
@@ -622,21 +626,75 @@ func execGuarded(fx *fixture, q string) (hx.Result, *hx.Failure) {
 		return o.res, nil
 	case <-time.After(hangAfter):
 	}
-	buf := make([]byte, 1<<22)
-	buf = buf[:runtime.Stack(buf, true)]
-	for _, g := range strings.Split(string(buf), "\n\n") {
-		if !selfFrame.MatchString(g) {
-			continue
+	// Not returned. Take two snapshots of the request goroutine: blocked (channel/mutex wait) is a hang;
+	// a stack of more than 100 000 frames that keeps growing through the same function is unbounded recursion (also a hang: it ends
+	// in a fatal stack overflow of the whole process); anything else still running is inconclusive.
+	snap := func() (state string, elided int, site string, dump string) {
+		buf := make([]byte, 1<<22)
+		buf = buf[:runtime.Stack(buf, true)]
+		for _, g := range strings.Split(string(buf), "\n\n") {
+			if !selfFrame.MatchString(g) {
+				continue
+			}
+			head := strings.SplitN(g, "\n", 2)[0]
+			state = "blocked"
+			if strings.Contains(head, "[running") || strings.Contains(head, "[runnable") {
+				state = "running"
+			}
+			if m := elidedRe.FindStringSubmatch(g); m != nil {
+				elided, _ = strconv.Atoi(m[1])
+			}
+			// the function that dominates the visible frames
+			counts := map[string]int{}
+			for _, line := range strings.Split(g, "\n") {
+				if strings.HasPrefix(line, "github.com/sourcenetwork/defradb/") && !strings.Contains(line, "verifharness") {
+					if i := strings.LastIndex(line, "("); i > 0 {
+						line = line[:i]
+					}
+					counts[strings.TrimPrefix(line, "github.com/sourcenetwork/defradb/")]++
+				}
+			}
+			best := 0
+			for fn, n := range counts {
+				if n > best || (n == best && fn < site) {
+					best, site = n, fn
+				}
+			}
+			if best < 10 {
+				site = hx.PanicSite(g)
+			}
+			return state, elided, site, g
 		}
-		head := strings.SplitN(g, "\n", 2)[0]
-		if strings.Contains(head, "[running") || strings.Contains(head, "[runnable") {
-			hx.Harnessf("request %q still running after %s (not blocked): inconclusive\n%.3000s", q, hangAfter, g)
-		}
-		return hx.Result{}, hx.Failf("C08/hang/"+hx.PanicSite(g), "request %q has not returned after %s and its goroutine is blocked: %.3000s", q, hangAfter, g)
+		return "gone", 0, "", ""
 	}
-	hx.Harnessf("request %q has not returned after %s and its goroutine was not found", q, hangAfter)
+	st1, el1, site1, dump := snap()
+	time.Sleep(500 * time.Millisecond)
+	st2, el2, site2, _ := snap()
+	cancel()
+	// give the request the chance to end on the cancelled context, so that a runaway goroutine does not
+	// take the process down later
+	ended := false
+	select {
+	case <-ch:
+		ended = true
+	case <-time.After(10 * time.Second):
+	}
+	switch {
+	case st1 == "gone" || st2 == "gone":
+		if ended {
+			hx.Harnessf("request %q returned only after %s: too slow to judge, inconclusive", q, hangAfter)
+		}
+		hx.Harnessf("request %q has not returned after %s and its goroutine was not found", q, hangAfter)
+	case st1 == "blocked" && st2 == "blocked":
+		return hx.Result{}, hx.Failf("C08/hang/blocked/"+site1, "request %q has not returned after %s and its goroutine is blocked (ended after cancel: %v): %.3000s", q, hangAfter, ended, dump)
+	case el1 > 100000 && el2 > el1+1000 && site1 == site2:
+		return hx.Result{}, hx.Failf("C08/hang/unbounded-recursion/"+site1, "request %q has not returned after %s: its stack grows without bound through %s (%d, then %d frames elided; ended after cancel: %v): %.2000s", q, hangAfter, site1, el1, el2, ended, dump)
+	}
+	hx.Harnessf("request %q still running after %s (not blocked, no runaway recursion; ended after cancel: %v): inconclusive\n%.3000s", q, hangAfter, ended, dump)
 	return hx.Result{}, nil
 }
+
+var elidedRe = regexp.MustCompile(`\.\.\.(\d+) frames elided\.\.\.`)
 
 type reqRun struct {
 	req   string
@@ -644,11 +702,24 @@ type reqRun struct {
 	fresh bool
 }
 
+const sigCommitsRecursion = "C08/hang/unbounded-recursion/internal/planner.(*dagScanNode).Next"
+
+// commitsCidFieldRe recognises the trigger of the listed hang: a commits selection (commits or a
+// time-travel read) given both a cid and a fieldName.
+var commitsCidFieldRe = regexp.MustCompile(`(?s)\(\s*[^()]*\bcid\b[^()]*\bfieldName\b[^()]*\)|\(\s*[^()]*\bfieldName\b[^()]*\bcid\b[^()]*\)`)
+
 // runReq is the pure run of one request case.
 func runReq(c ReqCase) (*reqRun, *hx.Failure) {
 	fx := sharedFixture()
 	q := c.render(fx)
 	r := &reqRun{req: q}
+	if !c.Observe && rec.IsKnown(sigCommitsRecursion) && commitsCidFieldRe.MatchString(q) {
+		// A request that runs into the listed unbounded recursion cannot be stopped and ends in a fatal
+		// stack overflow of the process: while that finding is listed its trigger is not executed
+		// (observed once per run by observeKnownHang instead).
+		r.class = "skipped(known-hang-trigger)"
+		return r, nil
+	}
 	if strings.Contains(q, "mutation") {
 		// the request may write: it gets its own database (same content, same ids)
 		fx = newFixture()
@@ -693,8 +764,24 @@ func drawReq(t *rapid.T) ReqCase {
 	return c
 }
 
+// observeKnownHang runs the trigger of the unbounded recursion once, last in the process (the
+// runaway goroutine cannot be stopped; the process exits right after).
+func observeKnownHang(t *testing.T) {
+	old := hangAfter
+	hangAfter = 4 * time.Second
+	defer func() { hangAfter = old }()
+	fx := sharedFixture()
+	c := ReqCase{Tpl: "raw", Raw: fmt.Sprintf(`query { commits(cid: %q, fieldName: "nope") { cid } }`, fx.cids[0]), Observe: true}
+	_, f := runReq(c)
+	rec.Eval(c, true, "req", "req:observe-known-hang")
+	rec.Check(t, AnyCase{Req: &c}, f)
+}
+
 func TestC08Requests(t *testing.T) {
 	defer dropSharedFixture()
+	if hx.EnvInt("VERIF_SHARD", 0) == 0 && os.Getenv("VERIF_COLLECT") == "" {
+		defer observeKnownHang(t)
+	}
 	rapid.Check(t, func(t *rapid.T) {
 		c := drawReq(t)
 		var r *reqRun
@@ -713,11 +800,26 @@ func TestC08Requests(t *testing.T) {
 			}
 		}
 		rec.Eval(c, nt, labels...)
+		if f != nil && os.Getenv("VERIF_COLLECT") != "" {
+			// discovery mode (development aid): list distinct failure signatures with the shortest request
+			collectMu.Lock()
+			if old, ok := collected[f.Sig]; !ok || len(r.req) < len(old) {
+				collected[f.Sig] = r.req
+				fmt.Printf("COLLECT %s :: %s\n", f.Sig, r.req)
+			}
+			collectMu.Unlock()
+			return
+		}
 		if rec.Check(t, AnyCase{Req: &c}, f) {
 			return
 		}
 	})
 }
+
+var (
+	collectMu sync.Mutex
+	collected = map[string]string{}
+)
 
 // jsonString is used by the fuzz corpus replay to embed raw requests into cases.
 func jsonString(s string) string {
